@@ -11,7 +11,12 @@
 (***************************************************************************)
 EXTENDS Naturals, Sequences, FiniteSets
 
-Letters == {"a", "A", "b", "e'", "E'", "sp"}     \* "sp" = a blank: significant in needles and values
+Letters == {"a", "A", "b", "s", "e'", "E'", "sp"}     \* "sp" = a blank: significant in needles and values
+\* letters that occur in card values only: sharp s and long s.  Their *Unicode* case mappings
+\* yield ASCII letters (SS / S), which i;octet and i;ascii-casemap must not apply; what
+\* i;unicode-casemap makes of them is left open (such pairs are not judged).
+Special == {"ss'", "ls'"}
+HasSpecial(s) == \E i \in DOMAIN s : s[i] \in Special
 
 FoldLetter(coll, x) ==
     CASE coll = "i;octet" -> x
